@@ -248,10 +248,6 @@ def buildSchema (kind : ProtoKind) (ext : Exts) (psm : Option PsmKey) : Outcome 
 def topExts (a : Annot) : Exts :=
   { validate := some (a.validate.getD {}), list := a.list, j5 := a.j5 }
 
-def Schema.isAny : Schema → Bool
-  | .any _ _ _ => true
-  | _ => false
-
 /-- one field of `messageProperties` -/
 def readField (a : Annot) : Outcome Property :=
   let ext := topExts a
@@ -267,9 +263,6 @@ def readField (a : Annot) : Outcome Property :=
     | .err t => .err t
     | .panic w => .panic w
     | .ok s =>
-      -- a9e5f7d: j5reflect and the JSON codec have no array of Any
-      if s.isAny then .err "arrays of Any are not supported"
-      else
       .ok { name := a.jsonName, number := a.number, description := a.description,
             required := required, explicitlyOptional := false, schema := .array s rules sf }
   else if a.isMap then
@@ -284,8 +277,6 @@ def readField (a : Annot) : Outcome Property :=
     | .err t => .err t
     | .panic w => .panic w
     | .ok s =>
-      if s.isAny then .err "maps of Any are not supported"
-      else
       .ok { name := a.jsonName, number := a.number, description := a.description,
             required := required, explicitlyOptional := false, schema := .map s rules sf }
   else
